@@ -605,7 +605,11 @@ func (h *sessHarness) handler(tok []string) {
 	case "login":
 		uid := unq(tok[1])
 		excl := tok[2] == "1"
-		u := &user{ID: uid, Ver: h.st.vers[uid]}
+		var u sessions.User = &user{ID: uid, Ver: h.st.vers[uid]}
+		// an application that re-authenticates the user it already has in hand passes the very same object again
+		if cur, ok := s.User().(*user); ok && cur != nil && cur.ID == uid && cur.Ver == h.st.vers[uid] {
+			u = cur
+		}
 		h.call(true, func() (string, string) { return retErr(s.LogIn(u, excl, h.curResp)) })
 	case "logout":
 		h.call(true, func() (string, string) { return retErr(s.LogOut()) })
